@@ -7,6 +7,8 @@ import (
 	"encoding/json"
 	"fmt"
 	"io"
+	"os"
+	"path/filepath"
 	"reflect"
 	"runtime/debug"
 	"strings"
@@ -395,6 +397,48 @@ func c01RunInner(w *explore.Worker, c c01Case) {
 		want = append(want, byte(len(tr.Password)))
 		want = append(want, tr.Password...)
 		drainP(w, c, tr, want)
+	case "FileList":
+		// the file list records the server builds for a real directory (names incl. Mac-Roman representable ones)
+		dir, err := os.MkdirTemp(os.Getenv("VERIF_SCRATCH"), "c01-")
+		if err != nil {
+			w.Broken("mkdtemp: %v", err)
+			return
+		}
+		defer os.RemoveAll(dir)
+		names := [][]string{{"a"}, {"café menu.txt", "b"}, {"été", "Résumé.txt", "x y"}, {strings.Repeat("n", 200)}, {"ü", "plain.txt", "sub"}}[a%5]
+		for i, n := range names {
+			if n == "sub" {
+				_ = os.MkdirAll(filepath.Join(dir, n, "k"), 0755)
+				continue
+			}
+			_ = os.WriteFile(filepath.Join(dir, n), pat(i*7+b, 'z'), 0644)
+		}
+		fields, err := hotline.GetFileNameList(dir, nil)
+		if err != nil || len(fields) != len(names) {
+			fail("file-list", fmt.Sprintf("GetFileNameList: %d records for %d entries, err %v", len(fields), len(names), err))
+			return
+		}
+		for _, f := range fields {
+			e, err := ref.DecodeFileListEntry(f.Data)
+			if err != nil {
+				fail("file-list-record-length-prefix", fmt.Sprintf("%v: %x", err, clipb(f.Data, 60)))
+				continue
+			}
+			found := false
+			for _, n := range names {
+				if string(macRoman(n)) == e.Name {
+					found = true
+				}
+			}
+			if !found {
+				fail("file-list-record-name", fmt.Sprintf("record name %q is not the Mac-Roman form of any of %q", e.Name, names))
+			}
+			var back hotline.FileNameWithInfo
+			if _, err := back.Write(f.Data); err != nil || string(back.Name) != e.Name {
+				fail("decode", fmt.Sprintf("FileNameWithInfo.Write on a list record: %v", err))
+			}
+		}
+		w.Outcome(fmt.Sprintf("FileList|%d", a%5))
 	case "Misc":
 		// resume data, time, integers, news paths, handshake, transfer preamble, server record
 		off := uint32(a)*65537 + uint32(b)
@@ -503,6 +547,9 @@ func c01Cases(thorough bool) []c01Case {
 	}
 	for a := 0; a < 8; a++ {
 		add("Misc", a, a*31, a*7, a*3)
+	}
+	for a := 0; a < 5; a++ {
+		add("FileList", a, a+1, 0, 0)
 	}
 	return cs
 }
